@@ -9,7 +9,7 @@ if [ ! -d "$WT" ]; then git -C /repo worktree add -q --detach "$WT" HEAD || exit
 cd "$WT" && git reset -q --hard && git checkout -q --detach "$(git -C /repo rev-parse HEAD)" && git reset -q --hard && git clean -fdq -e target
 CRATE=$(python3 -c "import json,sys;m=json.load(open('$SRC/meta.json'));c=m.get('crate','');print('glass-easel-stylesheet-compiler' if 'stylesheet' in c else 'glass-easel-template-compiler')")
 LOG="$SRC/confirm.log"; : > "$LOG"
-cp "$SRC/demo.rs" "$WT/$CRATE/tests/seeded_demo.rs"
+mkdir -p "$WT/$CRATE/tests"; cp "$SRC/demo.rs" "$WT/$CRATE/tests/seeded_demo.rs"
 # without patch
 timeout 600 cargo test -p $CRATE --test seeded_demo --offline >>"$LOG" 2>&1; CLEAN=$?
 git apply "$SRC/patch.diff" >>"$LOG" 2>&1 || { git reset -q --hard; git apply --3way "$SRC/patch.diff" >>"$LOG" 2>&1; }; AP=$?
